@@ -157,6 +157,27 @@ pub fn c05(a: &Args) {
             sessions.push((ops, s % 4, "random"));
         }
     }
+    // editing families: one long-lived linter sees every word of a sentence at the start of a
+    // document, capitalised and not, behind white space, cut at word boundaries ...
+    if let Some(corpus) = a.get("corpus") {
+        let corpus = read_corpus(corpus);
+        let nf = a.num("family-sentences", 60) as usize;
+        let start = rng.below(corpus.len());
+        for i in 0..nf.min(corpus.len()) {
+            let t = &corpus[(start + i) % corpus.len()];
+            let mut ops: Vec<(String, usize, String, String)> = Vec::new();
+            for (k, member) in crate::inputs::family(t).into_iter().enumerate() {
+                if k % 9 == 4 { ops.push(("cfg".to_string(), (i + k) % 8, String::new(), String::new())); }
+                ops.push(("lint".to_string(), 0, member.clone(), if (i + k) % 3 == 0 { "md".into() } else { "plain".into() }));
+                // case variants of the same text: the same (mis)spellings in another capitalisation
+                if k % 4 == 0 {
+                    ops.push(("lint".to_string(), 0, member.to_lowercase(), "plain".into()));
+                    ops.push(("lint".to_string(), 0, member.to_uppercase(), "plain".into()));
+                }
+            }
+            sessions.push((ops, i % 4, "family"));
+        }
+    }
     let threads = a.num("threads", 12) as usize;
     let evs = par_map(sessions.len(), threads, |_| (), |_, i| {
         let (ops, d, tag) = &sessions[i];
@@ -460,6 +481,7 @@ pub fn c14(a: &Args) {
             let mut ignored = IgnoredLints::new();
             let mut wasm = if *s % 3 == 0 { Some(harper_wasm::Linter::new(harper_wasm::Dialect::American)) } else { None };
             let mut cur = text.clone();
+            let mut last_ignored: Option<(usize, usize)> = None;
             for step in 0..4 {
                 let doc = make_doc(&cur, "plain");
                 let all = lg.lint(&doc);
@@ -485,18 +507,39 @@ pub fn c14(a: &Args) {
                         if vis.is_empty() { continue; }
                         let k = r.below(vis.len());
                         ignored.ignore_lint(&vis[k], &doc);
+                        last_ignored = Some((vis[k].span.start, vis[k].span.end));
+                        let mut wasm_done = false;
                         if let Some(w) = wasm.as_mut() {
                             let wl = w.lint(cur.clone(), harper_wasm::Language::Plain);
                             if let Some(x) = wl.into_iter().find(|x| x.span().start == vis[k].span.start && x.span().end == vis[k].span.end && x.message() == vis[k].message) {
                                 w.ignore_lint(cur.clone(), x);
+                                wasm_done = true;
                             }
                         }
-                        evs2.push(json!({"ev": "Ignored", "pid": pid(&vis[k], &doc, false), "lpid": pid(&vis[k], &doc, true), "id": lint_digest(&vis[k]),
+                        evs2.push(json!({"ev": "Ignored", "w": wasm_done, "pid": pid(&vis[k], &doc, false), "lpid": pid(&vis[k], &doc, true), "id": lint_digest(&vis[k]),
                             "wkey": format!("{}-{}", vis[k].span.end - vis[k].span.start, vis[k].message)}));
                     }
                     1 => {
                         // edit far away from everything that was ignored, or round-trip the list
-                        match r.below(4) {
+                        match r.below(6) {
+                            4 | 5 => {
+                                // alter the nearest word that is at least three characters away from the ignored lint
+                                if let Some((is, ie)) = last_ignored {
+                                    let chars: Vec<char> = cur.chars().collect();
+                                    let mut best: Option<(usize, usize)> = None; // (distance, token start)
+                                    for t in doc.get_tokens() {
+                                        if !t.kind.is_word() || t.span.end <= t.span.start { continue; }
+                                        let d = if t.span.end + 3 <= is { is - t.span.end } else if t.span.start >= ie + 3 { t.span.start - ie } else { continue };
+                                        if best.map(|b| d < b.0).unwrap_or(true) { best = Some((d, t.span.start)); }
+                                    }
+                                    if let Some((_, at)) = best {
+                                        let mut c2 = chars.clone();
+                                        c2[at] = if c2[at] == 'q' { 'z' } else if c2[at].is_uppercase() { 'Q' } else { 'q' };
+                                        cur = c2.iter().collect();
+                                        evs2.push(json!({"ev": "Edit", "kind": "alter", "at": at}));
+                                    }
+                                }
+                            }
                             0 => { cur = format!("{}{}", far_pre[r.below(far_pre.len())], cur); evs2.push(json!({"ev": "Edit", "kind": "prepend"})); }
                             1 => { cur = format!("{}{}", cur.trim_end(), far_post[r.below(far_post.len())]); evs2.push(json!({"ev": "Edit", "kind": "append"})); }
                             2 => {
